@@ -404,3 +404,70 @@ Theorem C20_excludes_first_base_unset :
     <> m_spec_cls k H (ops ++ [ClsUnset c]) c.
 Proof. exact first_base_unset_refuted. Qed.
 Print Assumptions C20_excludes_first_base_unset.
+
+(** ** Round 7: the library's own SUPPORT DETECTION inside the histories
+    ([model/SettingsDetect.v]).  A history interleaves set / unset operations with support checks on
+    any class ([DDetect], possibly a subclass first, possibly with the recorded flags dropped so that
+    detection runs again) and instance creations ([DNew], which check support first), for ANY terminal
+    identity [t] and either graphics style [g].  Detection changes only the support flags: after every
+    such history every class and instance reads what the documented rule gives on the history WITH THE
+    DETECTION STEPS ERASED -- the documented default, the nearest class's value, locality are the ones
+    of the user's operations alone, whatever the terminal and whenever detection runs. *)
+From TI Require Import model.SettingsDetect model.SettingsDetectTie proofs.SettingsDetectProofs.
+
+Theorem C20_detect_changes_no_setting :
+  forall k isfs g t par, wf_par par -> forall icls ops,
+    d_set (drun k isfs g t par ops) = run k par (erase ops)
+    /\ (forall c, cls_eff k par (d_set (drun k isfs g t par ops)) c = spec_cls k par (erase ops) c)
+    /\ (forall i, inst_eff k par icls (d_set (drun k isfs g t par ops)) i
+                  = spec_inst k par icls (erase ops) i).
+Proof. exact detect_changes_no_setting. Qed.
+Print Assumptions C20_detect_changes_no_setting.
+
+(** one detection step (support check or instance creation), from ANY state, leaves every
+    setting's dictionaries as they are *)
+Theorem C20_detect_step_keeps_settings :
+  forall k isfs g t par s o,
+    is_detect o = true -> d_set (fst (dstep k isfs g t par s o)) = d_set s.
+Proof. exact dstep_detect_keeps_settings. Qed.
+Print Assumptions C20_detect_step_keeps_settings.
+
+(** detection steps placed before, between or after the user's operations are not seen *)
+Theorem C20_detect_steps_inserted_anywhere :
+  forall k isfs g t par icls a d b,
+    forallb is_detect d = true ->
+    (forall c, cls_eff k par (d_set (drun k isfs g t par (a ++ d ++ b))) c
+               = cls_eff k par (d_set (drun k isfs g t par (a ++ b))) c)
+    /\ (forall i, inst_eff k par icls (d_set (drun k isfs g t par (a ++ d ++ b))) i
+                  = inst_eff k par icls (d_set (drun k isfs g t par (a ++ b))) i).
+Proof. exact detect_steps_inserted_anywhere. Qed.
+Print Assumptions C20_detect_steps_inserted_anywhere.
+
+(** an instance created at any point of a history reads its class's effective value *)
+Theorem C20_new_instance_reads_class :
+  forall k isfs g t par, wf_par par -> forall ops c,
+    let s := drun k isfs g t par ops in
+    let r := snd (dstep k isfs g t par s (DNew c)) in
+    fst r = 1%Z -> snd r = spec_cls k par (erase ops) c.
+Proof. exact new_instance_reads_class. Qed.
+Print Assumptions C20_new_instance_reads_class.
+
+(** the model's trace satisfies the history-level judgement the correspondence applies to the
+    implementation's trace ([SettingsDetectTie.rows_ok_spec]) *)
+Theorem C20_detect_trace_spec :
+  forall k isfs g t par, wf_par par -> forall icls nc ni ops,
+    rows_ok_spec k ops (dspec_trace k par icls nc ni ops)
+      (dtrace k isfs g t par icls nc ni (dinit k) ops) = true.
+Proof. exact dtrace_satisfies_spec. Qed.
+Print Assumptions C20_detect_trace_spec.
+
+(** a design the property excludes: detection on Konsole re-homing the default render method of
+    the invoking class (an explicit class-wide LINES is lost when the first instance -- of a
+    subclass -- is created; a never-configured class no longer reads the documented default) *)
+Theorem C20_detect_rehoming_refuted :
+  exists ops c,
+    cls_eff (k_render_method 2) ex_dpar
+            (d_set (v_s (vrun (k_render_method 2) false GKitty IdKonsole ex_dpar ops))) c
+    <> spec_cls (k_render_method 2) ex_dpar (erase ops) c.
+Proof. exact detect_rehoming_refuted. Qed.
+Print Assumptions C20_detect_rehoming_refuted.
